@@ -64,15 +64,11 @@ func (s *store) Sort(ctx context.Context, sids []common.SeriesID, fieldKey index
 		query = obq
 	}
 
-	fk := fieldKey.Marshal()
-	sortedKey := fk
-	if order == modelv1.Sort_SORT_DESC {
-		sortedKey = "-" + sortedKey
-	}
 	result := &sortIterator{
 		query:       &queryNode{query: query},
 		reader:      reader,
-		sortedKey:   sortedKey,
+		sortedKey:   fieldKey.Marshal(),
+		desc:        order == modelv1.Sort_SORT_DESC,
 		size:        preLoadSize,
 		ctx:         ctx,
 		newIterator: newBlugeMatchIterator,
@@ -98,6 +94,19 @@ type sortIterator struct {
 	fields      []string
 	size        int
 	skipped     int
+	desc        bool
+}
+
+// sortOrder builds the bluge sort order from the raw field name. The field name
+// can be arbitrary bytes (a marshaled index rule id), so it must not go through
+// bluge's sort-string parser, which interprets a leading '-' or '+' as a
+// direction marker and strips it.
+func (si *sortIterator) sortOrder() search.SortOrder {
+	s := search.SortBy(search.Field(si.sortedKey))
+	if si.desc {
+		s = s.Desc()
+	}
+	return search.SortOrder{s}
 }
 
 func (si *sortIterator) Next() bool {
@@ -121,7 +130,7 @@ func (si *sortIterator) loadCurrent() bool {
 		// overflow
 		size = math.MaxInt
 	}
-	topNSearch := bluge.NewTopNSearch(size, si.query.(*queryNode).query).SortBy([]string{si.sortedKey})
+	topNSearch := bluge.NewTopNSearch(size, si.query.(*queryNode).query).SortByCustom(si.sortOrder())
 	if si.skipped > 0 {
 		topNSearch = topNSearch.SetFrom(si.skipped)
 	}
